@@ -4,6 +4,7 @@
   estimators used by the correspondence.  The model is a pure function of (steps, arguments), so "a refitted chain behaves
   like a fresh one" holds by construction; the harness checks it on the implementation (fit other data, refit, compare).
 -/
+import VerdeModel.Gen.VectorComp
 import VerdeModel.Gen.Chain
 import VerdeModel.Model.Chain
 import VerdeModel.Lemmas.Num
@@ -379,6 +380,42 @@ theorem gen_chain_eq_model (steps : List Step) (c : List (List Rat)) (d : Data) 
 theorem gen_gridder_filter_eq_model (fit : Rows → Except Err Predictor) (c : List (List Rat)) (d : Data) (w : Option Data) :
     Gen.gridderFilter fit c d w = (gridderStep fit).filter ⟨c, d, w⟩ := by
   unfold Gen.gridderFilter gridderStep
+  rfl
+
+/-! ### Bridges: `Vector.fit` and `Vector.predict` regenerated from source (Gen/VectorComp.lean) -/
+
+/-- **Bridge.**  `Vector.fit` followed by `Vector.predict`, as regenerated from the source, is the model's `vectorFit`: component `i` is fitted on
+    `(coordinates, data[i], weights[i])` only and the prediction is the tuple of the components' predictions, in order. -/
+theorem gen_vector_eq_model (comps : List (Rows → Except Err Predictor)) (c : List (List Rat)) (d : Data) (w : Option Data) :
+    (Gen.vectorFit comps c d w).map (fun fitted => fun q => Gen.vectorPredict fitted q) = vectorFit comps ⟨c, d, w⟩ := by
+  unfold Gen.vectorFit vectorFit Gen.vectorPredict
+  simp only [bind, Except.bind, pure, Except.pure, Except.map, throw, throwThe, MonadExceptOf.throw]
+  by_cases h1 : d.length < 2
+  · simp only [h1, if_true]
+  · simp only [h1, if_false]
+    cases w with
+    | none =>
+      cases List.mapM (m := Except Err) _ (comps.zip (d.zip _)) <;> rfl
+    | some ws =>
+      by_cases h2 : (ws.length != d.length) = true
+      · simp only [h2, if_true]
+      · simp only [h2, if_false]
+        cases List.mapM (m := Except Err) _ (comps.zip (d.zip _)) <;> rfl
+
+/-- **No cross-talk, about the source as it is now, for any number of components:** the predictor list `Vector.fit` leaves behind is obtained by
+    fitting component `i` on `(coordinates, data[i], weights[i])` — nothing else of the data or the weights reaches it. -/
+theorem src_vector_no_crosstalk (comps : List (Rows → Except Err Predictor)) (c : List (List Rat)) (d : Data) (ws : Data)
+    (h2 : 2 ≤ d.length) (hw : ws.length = d.length) :
+    Gen.vectorFit comps c d (some ws) =
+      (comps.zip (d.zip ws)).mapM fun x => x.1 ⟨c, [x.2.1], some [x.2.2]⟩ := by
+  unfold Gen.vectorFit
+  have h1 : ¬ d.length < 2 := by omega
+  simp only [h1, if_false, hw, bne_self_eq_false, Bool.false_eq_true, bind, Except.bind, pure, Except.pure]
+  have e1 : d.zip (ws.map some) = (d.zip ws).map (fun p => (p.1, some p.2)) := by
+    rw [List.zip_map_right]; rfl
+  have e2 : comps.zip ((d.zip ws).map fun p => (p.1, some p.2)) = (comps.zip (d.zip ws)).map (fun x => (x.1, (x.2.1, some x.2.2))) := by
+    rw [List.zip_map_right]; rfl
+  rw [e1, e2, List.mapM_map]
   rfl
 
 end Verde.C06
